@@ -8,6 +8,12 @@ export GOFLAGS=-mod=mod GOPROXY=off GOSUMDB=off GOTOOLCHAIN=local CGO_ENABLED=${
 mkdir -p "$VERIF/.build"
 exec 9>"$VERIF/.build/.lock"
 flock 9
+# bin/seedtest holds this lock exclusively while /repo carries a seeded defect; every other build waits (shared) so that a check
+# started meanwhile from another copy of /verif never compiles the mutated tree.  The lock file is created on demand.
+if [ -z "$VERIF_SEEDTEST" ]; then
+  exec 8>/tmp/.verif-repo.lock
+  flock -s 8
+fi
 cd "$VERIF/harness"
 # go.mod = the repository's own go.mod (so the unpruned module graph resolves offline) + replace.
 {
